@@ -82,7 +82,9 @@ fn implicit_first_allele_phasing(src: &[u8]) -> Phasing {
 }
 
 fn explicit_first_allele_phasing(src: &[u8]) -> Phasing {
-    allele_phasing(src[0])
+    src.first()
+        .copied()
+        .map_or(Phasing::Unphased, allele_phasing)
 }
 
 fn allele_phasing(n: u8) -> Phasing {
@@ -159,6 +161,12 @@ mod tests {
             ],
         );
         t(&[0x02, 0x81], &[(Some(0), Phasing::Unphased)]);
+    }
+
+    #[test]
+    fn test_iter_with_no_alleles() {
+        let genotype = Genotype::new(VCF_4_4, &[]);
+        assert!(genotype.iter().next().is_none());
     }
 
     #[test]
